@@ -6,7 +6,7 @@ use assets_manager::source::{DirEntry, Source};
 use std::collections::BTreeSet;
 use std::hash::{Hash, Hasher};
 use std::io::ErrorKind;
-use std::sync::atomic::{AtomicUsize, Ordering};
+use std::sync::{Condvar, Mutex};
 use vcommon::SubResult;
 
 /// ids asked of every source: every file / directory id of the tree, every proper prefix, the root,
@@ -63,46 +63,53 @@ pub fn check_source(src: &dyn Source, v: &Variant, o: &Oracle, ids: &[String], r
     let mut h = std::collections::hash_map::DefaultHasher::new();
     let mut nq = 0u64;
     for id in ids {
-        for ext in EXTS {
+        // the root is a directory id only: an empty *file* id is not a valid input (on the file
+        // system `File("", ext)` would even name a sibling of the root)
+        let file_exts: &[&str] = if id.is_empty() { &[] } else { &EXTS };
+        let mut key = (id.clone(), String::new());
+        for &ext in file_exts {
             // ---- read
             nq += 2;
-            let exp = o.files.get(&(id.clone(), ext.to_string()));
-            let q = format!("read({},{:?})", sid(id), ext);
+            key.1.clear();
+            key.1.push_str(ext);
+            let exp = o.files.get(&key);
+            let q = || format!("read({},{:?})", sid(id), ext);
             match (exp, src.read(id, ext)) {
                 (Some(want), Ok(got)) => {
                     let got = got.as_ref();
-                    (0u8, got).hash(&mut h);
-                    if got != &want[..] {
+                    let same = got == &want[..];
+                    (0u8, got.len(), same).hash(&mut h);
+                    if !same {
                         let at = got.iter().zip(want.iter()).position(|(a, b)| a != b).unwrap_or(got.len().min(want.len()));
-                        rep.viol("wrong-bytes", &sk, "read", v, &q, "content differs", || format!("got {} bytes, stored {} bytes, first difference at {at}", got.len(), want.len()));
+                        rep.viol("wrong-bytes", &sk, "read", v, &q(), "content differs", || format!("got {} bytes, stored {} bytes, first difference at {at}", got.len(), want.len()));
                     }
                 }
                 (Some(want), Err(e)) => {
-                    (1u8, kind_name(e.kind())).hash(&mut h);
-                    rep.viol("missing-file", &sk, "read", v, &q, &format!("Err({:?})", e.kind()), || format!("the tree holds {} bytes there", want.len()));
+                    (1u8, e.kind()).hash(&mut h);
+                    rep.viol("missing-file", &sk, "read", v, &q(), &format!("Err({:?})", e.kind()), || format!("the tree holds {} bytes there", want.len()));
                 }
                 (None, Ok(got)) => {
-                    (0u8, got.as_ref()).hash(&mut h);
-                    rep.viol("phantom-file", &sk, "read", v, &q, "Ok", || format!("{} bytes for a file the tree does not hold", got.as_ref().len()));
+                    (0u8, got.as_ref().len(), false).hash(&mut h);
+                    rep.viol("phantom-file", &sk, "read", v, &q(), "Ok", || format!("{} bytes for a file the tree does not hold", got.as_ref().len()));
                 }
                 (None, Err(e)) => {
-                    (1u8, kind_name(e.kind())).hash(&mut h);
+                    (1u8, e.kind()).hash(&mut h);
                     if e.kind() != ErrorKind::NotFound {
                         let class = if is_fs && ext.is_empty() && o.dirs.contains_key(id) { "errkind-kind-confusion" } else { "errkind" };
-                        rep.viol(class, &sk, "read", v, &q, &format!("Err({:?})", e.kind()), || "absent file must be reported as NotFound (the archives and Embedded do)".into());
+                        rep.viol(class, &sk, "read", v, &q(), &format!("Err({:?})", e.kind()), || "absent file must be reported as NotFound (the archives and Embedded do)".into());
                     }
                 }
             }
             // ---- exists(File)
-            let q = format!("exists(File({},{:?}))", sid(id), ext);
+            let q = || format!("exists(File({},{:?}))", sid(id), ext);
             let got = src.exists(DirEntry::File(id, ext));
             got.hash(&mut h);
             if got != exp.is_some() {
                 if got {
                     let class = if is_fs && ext.is_empty() && o.dirs.contains_key(id) { "exists-ignores-kind" } else { "exists-false-pos" };
-                    rep.viol(class, &sk, "exists_file", v, &q, "true", || "no such file in the tree (a directory has that path)".into());
+                    rep.viol(class, &sk, "exists_file", v, &q(), "true", || "no such file in the tree (a directory has that path)".into());
                 } else {
-                    rep.viol("exists-false-neg", &sk, "exists_file", v, &q, "false", || "the tree holds that file".into());
+                    rep.viol("exists-false-neg", &sk, "exists_file", v, &q(), "false", || "the tree holds that file".into());
                 }
             }
         }
@@ -166,7 +173,7 @@ pub fn check_source(src: &dyn Source, v: &Variant, o: &Oracle, ids: &[String], r
                 }
             }
             (Some(_), Err(k)) => {
-                (1u8, kind_name(k)).hash(&mut h);
+                (1u8, k).hash(&mut h);
                 let d = format!("Err({k:?})");
                 if empty_archive && id.is_empty() {
                     rep.viol("empty-root", v.kind, "read_dir", v, &q, &d, || "the root of an archive without any entry cannot be listed".into());
@@ -183,7 +190,7 @@ pub fn check_source(src: &dyn Source, v: &Variant, o: &Oracle, ids: &[String], r
                 rep.viol("phantom-dir", &sk, "read_dir", v, &q, "Ok", || format!("{} entries for a directory the tree does not hold", sorted.len()));
             }
             (None, Err(k)) => {
-                (1u8, kind_name(k)).hash(&mut h);
+                (1u8, k).hash(&mut h);
                 if k != ErrorKind::NotFound {
                     let class = if is_fs && o.files.contains_key(&(id.clone(), String::new())) { "errkind-kind-confusion" } else { "errkind" };
                     rep.viol(class, &sk, "read_dir", v, &q, &format!("Err({k:?})"), || "absent directory must be reported as NotFound (the archives and Embedded do)".into());
@@ -236,39 +243,45 @@ pub fn two_readers(src: &(dyn Source + Sync), v: &Variant, t: &Tree, rep: &mut R
     let calls: [[Call; 2]; 2] = [[rd(first), Call::ReadDir(String::new())], [rd(last), Call::ReadDir(d_last)]];
     let alone: Vec<Vec<Ans>> = calls.iter().map(|cs| cs.iter().map(|c| run_call(src, c)).collect()).collect();
     let scheds: [[usize; 4]; 6] = [[0, 0, 1, 1], [0, 1, 0, 1], [0, 1, 1, 0], [1, 0, 0, 1], [1, 0, 1, 0], [1, 1, 0, 0]];
-    let mut n = 0;
-    for sched in scheds {
-        let step = AtomicUsize::new(0);
-        let got: Vec<Vec<Ans>> = std::thread::scope(|s| {
-            let hs: Vec<_> = (0..2)
-                .map(|me| {
-                    let (step, calls) = (&step, &calls);
-                    s.spawn(move || {
-                        let mut out = vec![];
+    // one pair of threads runs the 6 interleavings back to back: global step k belongs to thread
+    // scheds[k / 4][k % 4]; a thread performs its next call only when the step counter says so (blocking hand-off)
+    let step = (Mutex::new(0usize), Condvar::new());
+    let got: Vec<Vec<Vec<Ans>>> = std::thread::scope(|s| {
+        let hs: Vec<_> = (0..2)
+            .map(|me| {
+                let (step, calls, scheds) = (&step, &calls, &scheds);
+                s.spawn(move || {
+                    let mut out = vec![];
+                    for round in 0..scheds.len() {
+                        let mut mine = vec![];
                         for c in &calls[me] {
-                            loop {
-                                let k = step.load(Ordering::Acquire);
-                                if sched[k] == me {
-                                    break;
+                            {
+                                let mut k = step.0.lock().unwrap();
+                                while !(*k / 4 == round && scheds[round][*k % 4] == me) {
+                                    k = step.1.wait(k).unwrap();
                                 }
-                                std::thread::yield_now();
                             }
-                            out.push(run_call(src, c));
-                            step.fetch_add(1, Ordering::AcqRel);
+                            mine.push(run_call(src, c));
+                            *step.0.lock().unwrap() += 1;
+                            step.1.notify_all();
                         }
-                        out
-                    })
+                        out.push(mine);
+                    }
+                    out
                 })
-                .collect();
-            hs.into_iter().map(|h| h.join().unwrap()).collect()
-        });
-        n += 1;
-        rep.res.transitions += 4;
-        if got != alone {
-            rep.viol("two-readers", &v.srckind(), "schedule", v, &format!("interleaving {sched:?} of A=[{:?},{:?}] B=[{:?},{:?}]", calls[0][0], calls[0][1], calls[1][0], calls[1][1]), "an answer differs from the same call made alone", String::new);
+            })
+            .collect();
+        hs.into_iter().map(|h| h.join().unwrap()).collect()
+    });
+    rep.res.transitions += 4 * scheds.len() as u64;
+    for (round, sched) in scheds.iter().enumerate() {
+        for me in 0..2 {
+            if got[me][round] != alone[me] {
+                rep.viol("two-readers", &v.srckind(), "schedule", v, &format!("interleaving {sched:?} of A=[{:?},{:?}] B=[{:?},{:?}]", calls[0][0], calls[0][1], calls[1][0], calls[1][1]), "an answer differs from the same call made alone", String::new);
+            }
         }
     }
-    n
+    scheds.len() as u64
 }
 
 pub fn run_case(case: &Case, res: &mut SubResult) -> Result<(), String> {
@@ -282,15 +295,22 @@ pub fn run_case(case: &Case, res: &mut SubResult) -> Result<(), String> {
     let mut hashes: Vec<(String, u64)> = vec![];
     let mut scheds = 0u64;
     let mut n_src = 0u64;
+    let t_all = std::time::Instant::now();
+    let (mut us_q, mut us_s) = (0u64, 0u64);
     for_each_source(&t, &sc, Mode::Full, &mut st, &mut |src, v, shared| {
         let o = if v.nodirs() { &pruned } else { &full };
+        let t0 = std::time::Instant::now();
         let h = check_source(src, v, o, &ids, &mut rep);
+        us_q += t0.elapsed().as_micros() as u64;
         hashes.push((v.srckind(), h));
         n_src += 1;
         if let Some(sh) = shared {
+            let t0 = std::time::Instant::now();
             scheds += two_readers(sh, v, &t, &mut rep);
+            us_s += t0.elapsed().as_micros() as u64;
         }
     })?;
+    let us_all = t_all.elapsed().as_micros() as u64;
     // embedded tables: promised order
     if let Some(d) = &st.embedded_disorder {
         rep.viol("embedded-unsorted", "embedded", "tables", &Variant::plain("embedded", "tables"), "expand_dir()", "tables not sorted", || d.clone());
@@ -309,6 +329,13 @@ pub fn run_case(case: &Case, res: &mut SubResult) -> Result<(), String> {
     res.states += 1;
     res.evaluations += n_src;
     res.traces_validated += n_src;
+    res.add_note_count("cpu ms: all sources of all cases", us_all / 1000);
+    res.add_note_count("cpu us: queries", us_q);
+    res.add_note_count("cpu us: two-reader schedules", us_s);
+    res.add_note_count("cpu us: build fs tree", st.us_build_fs);
+    res.add_note_count("cpu us: build embedded (expand + interpret)", st.us_build_emb);
+    res.add_note_count("cpu us: build+open zip in-memory variants", st.us_build_zip);
+    res.add_note_count("cpu us: build+open tar in-memory variants", st.us_build_tar);
     res.add_note_count("sources fs", st.fs);
     res.add_note_count("sources embedded (real expand_dir interpreted)", st.embedded);
     res.add_note_count("sources zip in-memory", st.zip_mem);
